@@ -149,3 +149,18 @@ func verifParam() int { return verifParamV }
 
 // intrinsic: the -bound value of the engine invocation (tier-dependent size bound).
 func verifBound() int { return verifBoundV }
+
+// intrinsic: make m (a map[K]chan T) an arbitrary unknown map (see engine).
+func verifHavocChanMap(m interface{}, filler interface{}) {}
+
+// intrinsic: is a thread whose function name contains name blocked on an operation containing op.
+func verifThreadBlockedOn(name, op string) bool { return false }
+
+// intrinsic: number of buffered elements of channel c.
+func verifChanLen(c interface{}) int { return 0 }
+
+// intrinsic: every access to map m must happen with mutex mu held (lock discipline).
+func verifGuard(m interface{}, mu interface{}, name string) {}
+
+// intrinsic: the cell at p may only be accessed through sync/atomic while other goroutines run.
+func verifWatch(p interface{}, name string) {}
